@@ -162,17 +162,40 @@ theorem handleVerifyCommand_comp (m : M) (h : CompInv m.1) : CompInv (handleVeri
     apply stop_comp
     exact h.of_frame rfl rfl rfl rfl rfl rfl rfl rfl
 
-theorem handleMetadataData_comp (m : M) (k i len : Nat) (g : Bool) (h : CompInv m.1) :
-    CompInv (handleMetadataData m k i len g).1 := by
-  unfold handleMetadataData
+theorem hmdStart_comp' (m : M) (hcc : m.1.completeCClosed = m.1.completed)
+    (hall : m.1.completed = true → m.1.bf = none ∨ ∃ b, m.1.bf = some b ∧ allTrue b = true) :
+    CompInv (hmdStart m).1 := by
+  unfold hmdStart
+  split
+  · simp only [onSt_fst]; exact stop_comp' _ _ hcc hall
+  · simp only [onSt_fst]
+    split
+    · next ha => exact ⟨by simpa using hcc, by simpa using hall, by simp [ha]⟩
+    · exact ⟨hcc, hall, by simp⟩
+
+theorem hmdAdopt_comp (m : M) (h : CompInv m.1) : CompInv (hmdAdopt m).1 := by
+  unfold hmdAdopt
   dsimp only
   repeat' split
   all_goals first
-    | exact h
+    | (simp only [onSt_fst]; exact stop_comp _ _ (h.of_frame rfl rfl rfl rfl rfl rfl rfl rfl))
+    | exact hmdStart_comp' _ h.cc h.all
+
+theorem handleMetadataData_comp (m : M) (k i len : Nat) (g : Bool) (h : CompInv m.1) :
+    CompInv (handleMetadataData m k i len g).1 := by
+  rw [handleMetadataData_eq]
+  split
+  · exact h
+  unfold hmdBlock
+  dsimp only
+  repeat' split
+  all_goals first
     | (simp only [onSt_fst, closePeerM_fst]; exact (closePeer_comp _ _ h).of_frame rfl rfl rfl rfl rfl rfl rfl rfl)
     | (simp only [onSt_fst]; exact (h.of_frame rfl rfl rfl rfl rfl rfl rfl rfl))
-    | (simp only [onSt_fst]; exact stop_comp _ _ (h.of_frame rfl rfl rfl rfl rfl rfl rfl rfl))
-    | (obtain ⟨hcc, hall, hrun⟩ := h; constructor <;> simp_all)
+    | (simp only [onSt_fst, closePeerM_fst]
+       refine (closePeer_comp _ k ?_).of_frame rfl rfl rfl rfl rfl rfl rfl rfl
+       exact h.of_frame rfl rfl rfl rfl rfl rfl rfl rfl)
+    | exact hmdAdopt_comp _ (h.of_frame rfl rfl rfl rfl rfl rfl rfl rfl)
 
 /-! ### completion -/
 
